@@ -128,6 +128,10 @@ def run(ctx):
     rng.shuffle(pool)
     pool = pool[:(110 if ctx.quick() else 400)] + [i for i in valid_ids if i.startswith("ml-")]
     pairs = [{"A": a, "B": b} for a in pool for b in pool]
+    # and every valid source once in front of and once behind a few fixed partners (what ends a text matters: a look-ahead token may be needed)
+    partners = pool[:3]
+    sample = valid_ids if not ctx.quick() else [v for i, v in enumerate(sorted(valid_ids)) if i % 2 == ctx.seed % 2]
+    pairs += [{"A": a, "B": b} for a in sample for b in partners[:2]] + [{"A": a, "B": b} for b in sample for a in partners[2:3]]
     # shard over processes
     n = 12
     def shard(k):
